@@ -7,9 +7,11 @@
    family (Persist/Model.v: Token with any JSON value, ListToken, ObjectToken nested to any depth, TerminationToken,
    IterationTerminationToken) through the token table; the independence of loaded copies as far as it depends on
    the database layer (rows handed out by the cached getters, DbCache/Model.v).
-   NOT modelled (exercised on the real code only, or not at all): other step classes (Deploy, Schedule, Execute,
-   Transfer, loop steps, transformers), port classes with parameters, deployment / target / filter
-   configurations, JobToken, CWL entities; persistent ids of the builder copy (oracle only). *)
+   Step kinds: Scatter, Gather, Combinator / LoopCombinator, parameterless classes, job-port classes, ExecuteStep
+   (output connectors), DeployStep (its DeploymentConfig) and ScheduleStep (its binding: targets, filters; job prefix,
+   directories) with the deployment / target / filter tables threaded through the save.
+   NOT modelled: commands and output processors, hardware requirements, port classes with parameters, CWL
+   entities; persistent ids of the builder copy (oracle only). *)
 From Coq Require Import List NArith ZArith.
 From SF Require Import Base.Str DbCache.Model DbCache.Proofs Persist.Model Persist.Proofs Persist.WfModel Persist.WfProofs Persist.CfgModel Persist.CfgProofs.
 Import ListNotations.
@@ -38,8 +40,8 @@ Proof. exact builder_copy_structure. Qed.
 
 (* outside [ok_wf]: a step that uses one port as input "a" and as output "o" loads back without one of them *)
 Theorem C08_port_under_two_names_refuted :
-  ok_db (mkwdb [] [] [] []) = true /\
-  exists d', save_wf twice_witness (mkwdb [] [] [] []) = Some (1, d') /\
+  ok_db (mkwdb [] [] [] [] (mkcdb [] [] [])) = true /\
+  exists d', save_wf twice_witness (mkwdb [] [] [] [] (mkcdb [] [] [])) = Some (1, d') /\
              load_wf d' 1 <> Some twice_witness /\ load_wf d' 1 <> None.
 Proof. exact twice_witness_loses. Qed.
 
@@ -100,6 +102,8 @@ Example C08_roundtrip_example :
 Proof. vm_compute. repeat split; reflexivity. Qed.
 Example C08_workflow_example :
   let c := PComb CDot "c0" ["a"; "c1"] [("b", "c1")] ["c1"] [PComb (CCart 2) "c1" ["b"] [] [] []] in
+  let dc := mkdeploy "dock" "docker" (JObj [("image", JStr "x")]) false true ("p", "data_locality", JObj []) None
+                     (Some ("outer", None)) in
   let w := mkwf "wf" (JObj [("k", JArr [JNum 1])]) [("x", "p0")] [("out", "p2")]
                 [mkport "p0" "Port"; mkport "p1" "JobPort"; mkport "p2" "Port"]
                 [mkstep "/sc" KScatter 4%Z [("in", "p0")] [("__size__", "p1"); ("o", "p2")];
@@ -107,8 +111,12 @@ Example C08_workflow_example :
                  mkstep "/c" (KComb true c) 2%Z [("a", "p0"); ("b", "p1")] [("a", "p2")];
                  mkstep "/t" (KPlain "pkg.MyTransformer") 0%Z [("x", "p2")] [("y", "p1")];
                  mkstep "/x" (KExecute [("y", "conn")]) 1%Z [("__job__", "p1"); ("x", "p0")] [("y", "p2")];
-                 mkstep "/tr" (KJobIn "pkg.MyTransfer") 0%Z [("__job__", "p1")] [("f", "p0")]] in
-  let d0 := mkwdb [mkwrow "old" JNull [] []] [mkprow "q" 1 "Port"] [] [] in
+                 mkstep "/tr" (KJobIn "pkg.MyTransfer") 0%Z [("__job__", "p1")] [("f", "p0")];
+                 mkstep "/d" (KDeploy dc) 0%Z [] [("dock", "p2")];
+                 mkstep "/sch" (KSchedule (mkbinding [PTarget dc 2 (Some "svc") "/w"; PLocal "/tmp"] [mkfilter "f" "shuffle" (JObj [])])
+                                          "/sch" [JNull; JStr "/o"; JNull]) 0%Z
+                        [("__connector__dock", "p2")] [("__job__", "p1")]] in
+  let d0 := mkwdb [mkwrow "old" JNull [] []] [mkprow "q" 1 "Port"] [] [] (mkcdb [local_deploy] [] []) in
   ok_wf w = true /\ ok_db d0 = true /\
   option_map (fun r => load_wf (snd r) (fst r)) (save_wf w d0) = Some (Some w).
 Proof. vm_compute. repeat split; reflexivity. Qed.
